@@ -358,6 +358,40 @@ pub fn run(ctx: &mut Ctx) {
             ctx.sample(|| json!({"release": format!("{:04}-{:02}-{:02}", v.0, v.1, v.2)}));
         }
     }
+    // ---- term ids across the 7-digit range: the id table has 10^7 slots; ids next to its end and next to the
+    // block sizes a growing table would use (2^12, 2^16, 2^20) in every position of the stanza order
+    if let Some(base) = &base {
+        let border: [u32; 14] = [2, 4095, 4096, 4097, 8192, 65_535, 65_536, 1_048_575, 1_048_576, 1_048_577, 5_000_000, 8_388_608, 9_999_998, 9_999_999];
+        ctx.space("bases/term-ids-over-the-whole-range", &format!("one base fact set + 14 leaf terms with the ids {border:?} below HP:0000118, each with a gene row and an OMIM row; stanza order = every rotation of the ascending id list and the descending list; both loaders"));
+        for rot in 0..=border.len() {
+            if !ctx.take() {
+                continue;
+            }
+            ctx.state();
+            ctx.nontrivial();
+            let mut order: Vec<u32> = border.to_vec();
+            if rot == border.len() {
+                order.reverse();
+            } else {
+                order.rotate_left(rot);
+            }
+            let mut g = base.clone();
+            for (i, id) in order.iter().enumerate() {
+                if g.terms.iter().any(|t| t.id == *id) {
+                    continue;
+                }
+                g.terms.push(Facts::term(*id, &format!("Leaf {id}")));
+                g.edges.push((*id, 118));
+                g.anns.push(Facts::ann(Kind::Gene, 5000 + i as u32, &format!("BG{i}"), Some(*id)));
+                g.anns.push(Facts::ann(Kind::Omim, 700_000 + *id % 1000, &format!("Border disease {id}"), Some(*id)));
+            }
+            if g.terms.iter().any(|t| t.id == 118) {
+                with_opts(ctx, &g, &JaxOpts::default(), false, &format!("stanza order {order:?}"));
+                with_opts(ctx, &g, &JaxOpts::default(), true, &format!("stanza order {order:?} (transitive loader)"));
+            }
+            ctx.sample(|| json!({"stanza_order": order}));
+        }
+    }
     // ---- record names: gene symbols and disease names are free text between two tabs (or a tab and the line end)
     if let Some(base) = &base {
         let names: Vec<(&str, String)> = vec![
